@@ -16,12 +16,14 @@ CONF = {
                           ('loops-only', ('H_E', 'M_E0', 'T_PM', 'O_L02', 6, 3), 6000),
                           ('struct-deep', ('H_E', 'M_E1', 'T_E1', 'O_E', 7, 4), 2500, (1000, 40)),
                           ('struct-macro-ovr', ('H_E', 'M_E2', 'T_E1', 'O_E0', 2, 4), 1500),
+                          ('struct-one-ovr', ('H_E1', 'M_E1', 'T_E1', 'O_E0', 3, 3), 1200),
                           ('loops-sub', ('H_E', 'M_E0', 'NoGates', 'O_LS', 7, 4), 16000)],
                    thorough=[('struct', ('H_E', 'M_E0', 'T_E', 'O_E', 5, 4), 120000), ('struct-macro', ('H_E', 'M_E1', 'T_E1', 'O_E', 4, 3), 60000),
                              ('brackets', ('H_E', 'M_E0', 'T_PM', 'O_PM', 6, 4), 150000),
                              ('loops-only', ('H_E', 'M_E0', 'T_PM', 'O_L02', 8, 4), 100000),
                              ('struct-deep', ('H_E', 'M_E1', 'T_E1', 'O_E', 9, 5), 60000, (20000, 50)),
                              ('struct-macro-ovr', ('H_E', 'M_E2', 'T_E1', 'O_E0', 3, 4), 40000),
+                             ('struct-one-ovr', ('H_E1', 'M_E1', 'T_E1', 'O_E0', 4, 4), 30000),
                              ('loops-sub', ('H_E', 'M_E0', 'NoGates', 'O_LS', 9, 5), 100000)]),
     'gates': dict(quick=[('gates-wide', ('H_G', 'M_G', 'T_G', 'O_G', 3, 3, 'NoGates'), 3000),
                          ('gates-deep', ('H_G', 'M_E0', 'T_G2', 'O_G2', 5, 2, 'NoGates'), 2000),
@@ -177,6 +179,13 @@ def run_exec(job):
                 obs = execrun.observe(lambda: run_jaqal_circuit(c2), seed=job['seed'])
             cases.append({'id': '%s/run_ovr/%d' % (job['id'], k), 'site': 'run_ovr', 'inp': inp, 'ovr': ovr,
                           'text': text + ' | override %s' % passes.ovr_dict(ovr), 'obs': obs, 'outs': []})
+            # the other order: macros expanded first, constants substituted afterwards (C10: the passes commute)
+            from jaqalpaq.core.algorithm import expand_macros
+            c3, e3 = impl.with_cpu_limit(lambda: fill_in_let(expand_macros(circ), override_dict=passes.ovr_dict(ovr)))
+            if e3 is None:
+                obs3 = execrun.observe(lambda: run_jaqal_circuit(c3), seed=job['seed'])
+                cases.append({'id': '%s/run_ovr/%d/macros_first' % (job['id'], k), 'site': 'run_ovr', 'inp': inp, 'ovr': ovr,
+                              'text': text + ' | macros expanded, then override %s' % passes.ovr_dict(ovr), 'obs': obs3, 'outs': []})
     if 'run_shared' in job['sites'] and job.get('prev') is not None:
         # a history on ONE backend object: another program is executed first, then this one (the specification judges this
         # run exactly like a run on a fresh backend: what an execution does must not depend on what the backend did before)
@@ -352,7 +361,7 @@ def main(prop, tier):
         # a consumer of the result views: validation comments written from an execution, read back and compared
         from . import valid
         vj = [j for j in jobs if j.get('accept')]
-        valid.stage(rep, wd, rng.sample(vj, min(len(vj), 500 if tier == 'quick' else 8000)), tier)
+        valid.stage(rep, wd, rng.sample(vj, min(len(vj), 500 if tier == 'quick' else 2500)), tier)
         rep.phase('validation_comments')
     core.cleanup(prop)
     return rep.finish()
